@@ -292,6 +292,30 @@ def check(ctx: Ctx) -> list[RuleResult]:
         r3.ok({"Command._from_attrs": order})
     else:
         r3.fail(f"{fa.short}:join-order", fa.loc(), f"Command._from_attrs assembles {order}: expected verb, seqn, 3 addresses, code, f'{{len(payload)/2:03d}}', payload, single-space separated")
+    # the "no sequence number" normalisation must not swallow a numeric 0 (seqn ranges over ---, 000-255): decision table of the
+    # statements of _from_attrs that define seqn, over seqn in {None, 0, 7, '', '---', '000', other}
+    r3.instances += 1
+    r3.nontrivial += 1
+    rel = [st for st in fa.node.body if isinstance(st, (ast.If, ast.Assign)) and any(isinstance(x, ast.Name) and x.id == "seqn" and isinstance(x.ctx, ast.Store) for x in ast.walk(st))]
+    if not rel:
+        raise AnalysisError("Command._from_attrs: the seqn normalisation was not found")
+    synth = ast.FunctionDef(name="_seqn", args=ast.arguments(posonlyargs=[], args=[ast.arg(arg="seqn")], kwonlyargs=[], kw_defaults=[], defaults=[]), body=rel + [ast.Return(value=ast.Name(id="seqn", ctx=ast.Load()))], decorator_list=[], type_params=[])
+    ast.fix_missing_locations(synth)
+    from ..loader import FuncInfo as _FI
+    from ..predeval import PredEval, Unsupported
+
+    try:
+        tab = PredEval(ctx, _FI(fa.qualname + ".<seqn>", "_seqn", synth, fa.module, fa.cls, None), domains={"seqn": [None, 0, 7, "", "---", "000"]}).table()
+    except Unsupported as err:
+        raise AnalysisError(f"_from_attrs: seqn normalisation not understood: {err}") from err
+    swallowed = [a for a, r in tab.rows if a.get("seqn") in (0, 7, "000") and a.get("seqn") is not None and r == "---" and not isinstance(a.get("seqn"), bool)]
+    blanks = [a for a, r in tab.rows if (a.get("seqn") is None or a.get("seqn") in ("", "---")) and a.get("seqn") != 0 and r != "---"]
+    if swallowed:
+        r3.fail(f"{fa.short}:seqn-swallowed", fa.loc(rel[0]), f"a command built with seqn={swallowed[0]['seqn']!r} is printed with '---': the sequence number is not preserved")
+    elif blanks:
+        r3.fail(f"{fa.short}:seqn-blank", fa.loc(rel[0]), f"seqn={blanks[0]['seqn']!r} is no longer normalised to '---'")
+    else:
+        r3.ok({"seqn_normalisation": "None/''/'---' -> '---'; 0, 7, '000' are kept", "rows": len(tab.rows)})
     out.append(r3)
 
     # ---- R4 ---------------------------------------------------------------------------
@@ -317,4 +341,48 @@ def check(ctx: Ctx) -> list[RuleResult]:
     else:
         r4.fail(f"{pt.short}:order", pt.loc(), f"_partition peels the annotations in the order {seq}; the writer appends '<' then '*' then '#', so '#' must be peeled first")
     out.append(r4)
+
+    # ---- R5 ---------------------------------------------------------------------------
+    # Packet._validate hands the logger `extra=self.__dict__`: the packet's own attribute dict. Whatever receives it must work on a
+    # copy - a pop()/store on the mapping itself removes/changes attributes of the live packet (Frame.__eq__/__repr__ read them).
+    r5 = RuleResult("R5", "logging a packet does not alter it", "every mutation of makeRecord's `extra` mapping is dominated by rebinding it to a fresh copy", min_instances=2)
+    passes_dict = [n for g in repo.funcs.values() if g.module.name == "ramses_tx.packet" for n in own_nodes(g.node) if isinstance(n, ast.keyword) and n.arg == "extra" and norm(n.value) == "self.__dict__"]
+    r5.info = {"call_sites_passing_self.__dict__": len(passes_dict)}
+    cfgm = ctx.plain_cfg(mk)
+    muts = []
+    for x in cfgm.nodes:
+        if x.ast is None or x.kind != "stmt":
+            continue
+        for n in ast.walk(x.ast):
+            if isinstance(n, ast.Call) and isinstance(n.func, ast.Attribute) and isinstance(n.func.value, ast.Name) and n.func.value.id == "extra" and n.func.attr in ("pop", "update", "setdefault", "clear", "popitem", "__setitem__", "__delitem__"):
+                muts.append((x, n))
+            elif isinstance(n, ast.Subscript) and isinstance(n.value, ast.Name) and n.value.id == "extra" and isinstance(n.ctx, (ast.Store, ast.Del)):
+                muts.append((x, n))
+    copies = {x.id for x in cfgm.nodes if x.ast is not None and x.kind == "stmt" and isinstance(x.ast, ast.Assign) and len(x.ast.targets) == 1 and norm(x.ast.targets[0]) == "extra" and _is_fresh_mapping(x.ast.value)}
+    domm = cfgm.dominators()
+    if not passes_dict:
+        r5.notes.append("no call site passes self.__dict__ as `extra` any more: the rule is vacuous and passes")
+    for x, n in muts:
+        r5.instances += 1
+        r5.nontrivial += 1
+        if not passes_dict or (copies & domm[x.id]):
+            r5.ok({"mutation": norm(n)[:60], "on": "a fresh copy"})
+        else:
+            r5.fail(f"{mk.short}:mutates-extra:{norm(n)[:40]}", mk.loc(n), f"`{norm(n)[:60]}` can act on the caller's own mapping (Packet._validate passes self.__dict__): logging a packet then changes the packet (e.g. removes _frame, which Frame.__eq__ and __repr__ read)")
+    if not muts:
+        r5.instances += 1
+        r5.ok({"mutations_of_extra": 0})
+    out.append(r5)
     return out
+
+
+def _is_fresh_mapping(v: ast.expr) -> bool:
+    if isinstance(v, ast.Call) and norm(v.func) == "dict":
+        return True
+    if isinstance(v, ast.Call) and isinstance(v.func, ast.Attribute) and v.func.attr in ("copy", "deepcopy"):
+        return True
+    if isinstance(v, ast.Dict):
+        return True
+    if isinstance(v, ast.DictComp):
+        return True
+    return False
